@@ -43,7 +43,10 @@ L = [
 C = 'import b\nimport a\n\npub fn use_it() {\n  b.twice(1)\n}\n\npub fn again() {\n  a.main()\n}\n'
 
 # coordinates: (name, number of values)
-COORDS = [('a', len(A)), ('b', len(B)), ('l', len(L)), ('c', 2), ('edge', 2), ('bdir', 2), ('twin', 2)]
+COORDS = [('a', len(A)), ('b', len(B)), ('l', len(L)), ('c', 2), ('edge', 2), ('bdir', 2), ('twin', 2), ('extra', 2)]
+# a third package that appears / disappears; its path sorts BEFORE the others although it is listed last (the numbering of the source roots
+# follows the list the server sends, whatever the paths are), and no text of the other packages is re-sent with it
+EXTRA = 'pub fn z() {\n  0\n}\n'
 TWIN = 'pub fn twice(n) {\n  "twin"\n}\n'
 
 
@@ -59,13 +62,16 @@ def render(st):
         files.append({'id': 4, 'path': '/app/test/b.gleam' if st['bdir'] == 0 else '/app/src/b.gleam', 'text': TWIN, 'root': 0})
     roots = [{'path': '/app', 'local': True, 'deps': [1] if st['edge'] else [], 'toml': 100},
              {'path': '/dep', 'local': False, 'deps': [], 'toml': 101}]
+    if st.get('extra'):
+        files.append({'id': 5, 'path': '/aaa/src/z.gleam', 'text': EXTRA, 'root': 2})
+        roots.append({'path': '/aaa', 'local': True, 'deps': [], 'toml': 102})
     return {'files': files, 'roots': roots}
 
 
-START = [{'a': 0, 'b': 0, 'l': 0, 'c': 0, 'edge': 1, 'bdir': 0, 'twin': 0},
-         {'a': 3, 'b': 1, 'l': 3, 'c': 1, 'edge': 1, 'bdir': 0, 'twin': 0},
-         {'a': 2, 'b': 3, 'l': 0, 'c': 1, 'edge': 0, 'bdir': 1, 'twin': 1},
-         {'a': 4, 'b': 4, 'l': 1, 'c': 0, 'edge': 1, 'bdir': 0, 'twin': 0}]
+START = [{'a': 0, 'b': 0, 'l': 0, 'c': 0, 'edge': 1, 'bdir': 0, 'twin': 0, 'extra': 0},
+         {'a': 3, 'b': 1, 'l': 3, 'c': 1, 'edge': 1, 'bdir': 0, 'twin': 0, 'extra': 0},
+         {'a': 2, 'b': 3, 'l': 0, 'c': 1, 'edge': 0, 'bdir': 1, 'twin': 1, 'extra': 1},
+         {'a': 4, 'b': 4, 'l': 1, 'c': 0, 'edge': 1, 'bdir': 0, 'twin': 0, 'extra': 0}]
 
 
 def all_histories(start, n, limit=None, seed=0):
@@ -78,7 +84,7 @@ def all_histories(start, n, limit=None, seed=0):
     cur = {c: z3.BitVecVal(start[c], 3) for c in names}
     steps = []
     for i in range(n):
-        co = z3.BitVec('coord%d' % i, 3); va = z3.BitVec('val%d' % i, 3)
+        co = z3.BitVec('coord%d' % i, 4); va = z3.BitVec('val%d' % i, 3)
         s.add(z3.ULT(co, len(COORDS)))
         for j, (c, k) in enumerate(COORDS):
             s.add(z3.Implies(co == j, z3.And(z3.ULT(va, k), va != cur[c])))
